@@ -13,12 +13,11 @@ def wPod (bid : String) : Pod :=
 def wCfg : Cfg := { rolloutId := "r1", updateRevision := "rev-new", batches := [.pct 25, .pct 100],
                     replicas := 4, currentBatch := 0 }
 
-/-- **Defect #1 (unchanged code):** (vi) is false — batch-id "0", "7" or "-3" on a pod of the
-    current release makes `plannedUpdatedReplicasForBatches[podBatchID-1]--` index out of range. -/
-theorem vi_fails_on_unchanged_code :
+/-- witnesses of defect #1 on the fixed code (test on literals, not the ∀ claim) -/
+theorem witnesses_fixed :
     curInRange wCfg = true ∧
-    patchPodBatchLabel ⟨[]⟩ wCfg [wPod "0"] = .panic ∧
-    patchPodBatchLabel ⟨[]⟩ wCfg [wPod "7"] = .panic ∧
-    patchPodBatchLabel ⟨[]⟩ wCfg [wPod "-3"] = .panic := by decide
+    noPanic (patchPodBatchLabel ⟨[]⟩ wCfg [wPod "0"]) = true ∧
+    noPanic (patchPodBatchLabel ⟨[]⟩ wCfg [wPod "7"]) = true ∧
+    noPanic (patchPodBatchLabel ⟨[]⟩ wCfg [wPod "-3"]) = true := by decide
 
 end RV.Props.C12
